@@ -58,6 +58,11 @@
 (*    From then on nothing is promised about traffic of those pods through it (c.enigone), but  *)
 (*    their Teardown -- which then runs without an ENI index -- still has to remove every       *)
 (*    pod-specific rule, route and link and to leave the other pods alone.                      *)
+(*  * A pod may be given an address whose previous holder was never torn down (DEL lost or     *)
+(*    late): the previous holder's attachment is then superseded -- nothing is promised about   *)
+(*    it any more -- and every Setup clause must hold for the new pod although the old pod's    *)
+(*    link, route and rules are still there, and must keep holding when the old pod's late      *)
+(*    (fallback) DEL finally runs.                                                              *)
 (*  * A Setup that returns an error promises nothing for that attachment; it must still leave   *)
 (*    the other pods alone.                                                                     *)
 EXTENDS Fib, SequencesExt
@@ -77,6 +82,9 @@ NoAtt == [dp |-> "none"]
 (* (I) attachment ids encode the pod: pod p has attachments 2p-1 (eth0) and 2p (eth1) *)
 PodOfAtt(a) == ((a - 1) \div 2) + 1
 IsLive(L, a) == L[a].dp # "none"
+(* an attachment still has to be torn down (IsLive) but nothing is promised about it any more once its address was handed to *)
+(* another pod (superseded): the pod behind it is gone, only its late DEL is still to come                                   *)
+Active(L, a) == IsLive(L, a) /\ ~L[a].superseded
 
 Ext(f) == IF f = 4 THEN <<203, 0, 113, 77>> ELSE <<32, 1, 13, 184, 255, 255, 0, 0, 0, 0, 0, 0, 0, 0, 0, 119>>
 LinkIP(f) == IF f = 4 THEN <<169, 254, 1, 1>> ELSE <<254, 128, 0, 0, 0, 0, 0, 0, 0, 0, 0, 0, 0, 0, 0, 1>>
@@ -138,7 +146,7 @@ ToPkts(S, L, c, f) ==
     \cup (IF c.dp = "policy"
           THEN (IF c.enigone THEN {} ELSE {Pkt(Ext(f), IPof(c, f), c.eni)})
                \cup { Pkt(IPof(L[b], f), IPof(c, f), L[b].hostveth) :
-                        b \in { x \in Atts : IsLive(L, x) /\ L[x].dp = "policy" /\ x # c.att /\ f \in Fams(L[x]) } }
+                        b \in { x \in Atts : Active(L, x) /\ L[x].dp = "policy" /\ x # c.att /\ f \in Fams(L[x]) } }
           ELSE {})
 
 ViolHost(S, L, c) ==
@@ -175,7 +183,7 @@ ViolDisabled(S0, S1, c) ==
 ViolOthers(S, L, except) ==
     UNION { (IF owned[b] \subseteq Elems(S[0]) THEN {} ELSE {"removed_state_of_another_pod"})
             \cup { "other_pod:" \o v : v \in ViolAtt(S, L, L[b]) }
-            : b \in { x \in Atts \ except : IsLive(L, x) } }
+            : b \in { x \in Atts \ except : Active(L, x) } }
 
 (* ---------------------------------------------------------------- actions *)
 Init == /\ ns = [n \in NsIds |-> EmptyNs]
@@ -191,15 +199,20 @@ EniGone(e, S) ==
                                THEN [live[a] EXCEPT !.enigone = TRUE] ELSE live[a]]
     /\ owned' = [a \in Atts |-> owned[a] \cap Elems(S[0])]
 
+(* (I) an address has one holder: when Setup(c) is given an address another pod's attachment still carries, that pod is gone *)
+(* (its DEL was lost or is late) and its attachment is superseded                                                          *)
+Supersede(L, c) ==
+    [a \in Atts |-> IF a # c.att /\ IsLive(L, a) /\ L[a].pod # c.pod /\ PodAddrs(L[a]) \cap PodAddrs(c) # {}
+                    THEN [L[a] EXCEPT !.superseded = TRUE] ELSE L[a]]
 SetupViol(c, S) ==
-    LET L == [live EXCEPT ![c.att] = c] IN
+    LET L == Supersede([live EXCEPT ![c.att] = c], c) IN
     ViolAtt(S, L, c) \cup ViolDisabled(ns, S, c) \cup ViolOthers(S, L, {c.att})
 
 (* Setup(c) succeeded and left the namespaces in state S *)
 SetupOk(c, S) ==
     /\ c.att \in Atts /\ c.pod \in NsIds \ {0} /\ PodOfAtt(c.att) = c.pod                        \* (I)
     /\ ns' = S                                                                                  \* (I) bound from the trace
-    /\ live' = [live EXCEPT ![c.att] = c]
+    /\ live' = Supersede([live EXCEPT ![c.att] = c], c)
     /\ owned' = [owned EXCEPT ![c.att] = (@ \cap Elems(S[0])) \cup { x \in Elems(S[0]) \ Elems(ns[0]) : Mentions(x, c) }]
     /\ G("C13", Judge(SetupViol(c, S)))
 
@@ -240,7 +253,7 @@ TeardownFailed(p, S, gone) ==
     /\ G("C13", Judge(ViolOthers(S, live', gone)))
 
 (* ---------------------------------------------------------------- state invariant (a theorem of the guarded actions) *)
-InvC13 == \A a \in Atts : IsLive(live, a) => ViolAtt(ns, live, live[a]) = {} /\ owned[a] \subseteq Elems(ns[0])
+InvC13 == \A a \in Atts : Active(live, a) => ViolAtt(ns, live, live[a]) = {} /\ owned[a] \subseteq Elems(ns[0])
 
 (* ---------------------------------------------------------------- level 1: the model's kernel applies nic.Conf values *)
 RouteOf(r) == [table |-> r.table, dst |-> [ip |-> r.dst.ip, len |-> r.dst.len], dev |-> r.dev, gw |-> r.gw, scope |-> r.scope,
